@@ -164,8 +164,14 @@ class WorkerExclusive(Contract):
     def cases(self, tier):
         out = [dict(ts=(a, b)) for a in CODES for b in CODES]
         out += [dict(ts=("Fm", "Vo", "Zm")), dict(ts=("Fm", "Fm", "Fm")), dict(ts=("Vm", "Fo", "Vm"))]
+        # the rule is about every pair of tasks on the worker, whatever else the tasks declare: release dates,
+        # due dates that are deadlines ("hard") or not ("soft")
+        for timing in (("soft", "soft"), ("hard", "soft"), ("soft", "hard"), ("hard", "hard")):
+            out.append(dict(ts=("Fm", "Fm"), timing=timing))
+        out.append(dict(ts=("Vm", "Fo"), timing=("soft", "soft")))
         if tier == "thorough":
             out += [dict(ts=("Fm", "Fm", "Vm", "Fo"))]
+            out.append(dict(ts=("Fm", "Vo", "Fm"), timing=("soft", "hard", "soft")))
         return out
 
     def scenario(self, ps, P, case):
@@ -176,7 +182,11 @@ class WorkerExclusive(Contract):
         for i, code in enumerate(case["ts"]):
             cls, opt = decode(code)
             assume_valid_task(P, cls, f"t{i+1}")
-            t = make_task(ps, P, cls, f"t{i+1}", optional=opt)
+            tm = case.get("timing")
+            if tm:
+                t = make_task(ps, P, cls, f"t{i+1}", optional=opt, release=True, due=True, deadline=(tm[i] == "hard"))
+            else:
+                t = make_task(ps, P, cls, f"t{i+1}", optional=opt)
             t.add_required_resource(w)
             tasks.append(t)
         solver = ps.SchedulingSolver(problem=pb)
@@ -230,7 +240,13 @@ class SelectWorkersContract(Contract):
                 for t in ("Fm", "Fo", "Vm", "Zo"):
                     out.append(dict(n=n, kind=kind, t=t))
         out.append(dict(n=1, kind="exact", t="Fm"))
+        # declared defaults: exactly one worker
+        out.append(dict(n=3, kind="default", t="Fm", default_nb=True))
+        out.append(dict(n=2, kind="min", t="Fo", default_nb=True))
         return out
+
+    def nb(self, P, case):
+        return z3.IntVal(1) if case.get("default_nb") else T(P.int("nb"))
 
     def scenario(self, ps, P, case):
         P.assume(P.int("H") >= 1)
@@ -239,14 +255,19 @@ class SelectWorkersContract(Contract):
         assume_valid_task(P, cls, "t")
         t = make_task(ps, P, cls, "t", optional=opt)
         workers = [ps.Worker(name=f"w{i+1}") for i in range(case["n"])]
-        sw = ps.SelectWorkers(list_of_workers=workers, nb_workers_to_select=P.int("nb"), kind=case["kind"])
+        kw = {}
+        if not case.get("default_nb"):
+            kw["nb_workers_to_select"] = P.int("nb")
+        if case["kind"] != "default":
+            kw["kind"] = case["kind"]
+        sw = ps.SelectWorkers(list_of_workers=workers, **kw)
         t.add_required_resource(sw)
         solver = ps.SchedulingSolver(problem=pb)
         solver.initialize()
         return dict(pb=pb, t=t, workers=workers, sw=sw, solver=solver)
 
     def raises(self, P, case):
-        nb = T(P.int("nb"))
+        nb = self.nb(P, case)
         if case["n"] < 2:
             return [("ValidationError", z3.BoolVal(True))]
         return [("ValidationError", nb <= 0), ("ValueError", And(nb > 0, nb > case["n"]))]
@@ -257,7 +278,8 @@ class SelectWorkersContract(Contract):
         hz, H = pb._horizon, pb.horizon
         s = spec.sched(t)
         sel = [sw._selection_dict[w] for w in workers]
-        cs = [spec.cmp_kind(case["kind"], spec.count(sel), P.int("nb"))]
+        kind = "exact" if case["kind"] == "default" else case["kind"]
+        cs = [spec.cmp_kind(kind, spec.count(sel), self.nb(P, case))]
         for w, b in zip(workers, sel):
             bs, be = busy(w, t)
             # a selected worker of a scheduled task is held for the task's whole span; a worker that is
@@ -280,7 +302,7 @@ class SelectWorkersContract(Contract):
             wit.append((be, If(b, t._end, up)))
         goal = z3.substitute(And(*A), *wit)
         out.append(
-            Clause("complete", goal, hyps=valid + [spec.cmp_kind(case["kind"], spec.count(sel), P.int("nb"))], props=("C05", "C06"), kind="complete", bounded=self.bounded)
+            Clause("complete", goal, hyps=valid + [spec.cmp_kind(kind, spec.count(sel), self.nb(P, case))], props=("C05", "C06"), kind="complete", bounded=self.bounded)
         )
         return out
 
@@ -308,12 +330,16 @@ class CumulativeCapacity(Contract):
         if tier == "thorough":
             out.append(dict(size=3, ts=("Fm", "Vo", "Fm", "Vm")))
             out.append(dict(size=4, ts=("Fm",) * 5))
+        out.append(dict(size=2, ts=("Fm", "Fm", "Fm"), default_productivity=True))
         return out
 
     def scenario(self, ps, P, case):
         P.assume(P.int("H") >= 1)
         pb = ps.SchedulingProblem(name="pb", horizon=P.int("H"))
-        cw = ps.CumulativeWorker(name="cw", size=case["size"], productivity=P.int("prod"))
+        if case.get("default_productivity"):
+            cw = ps.CumulativeWorker(name="cw", size=case["size"])  # declared default: productivity 1
+        else:
+            cw = ps.CumulativeWorker(name="cw", size=case["size"], productivity=P.int("prod"))
         tasks = []
         for i, code in enumerate(case["ts"]):
             cls, opt = decode(code)
@@ -326,6 +352,8 @@ class CumulativeCapacity(Contract):
         return dict(pb=pb, cw=cw, tasks=tasks, solver=solver)
 
     def raises(self, P, case):
+        if case.get("default_productivity"):
+            return []
         return [("ValidationError", T(P.int("prod")) <= 0)]
 
     def clauses(self, P, ctx, case):
@@ -333,10 +361,11 @@ class CumulativeCapacity(Contract):
         A = asserted(solver)
         n = case["size"]
         units = cw._cumulative_workers
+        declared = z3.IntVal(1) if case.get("default_productivity") else T(P.int("prod"))
         out = [
             Clause(
                 "state[size unit workers; productivities sum to the declared one]",
-                And(z3.BoolVal(len(units) == n), z3.Sum([T(u.productivity) for u in units]) == T(P.int("prod")), *[T(u.productivity) >= 0 for u in units]),
+                And(z3.BoolVal(len(units) == n), z3.Sum([T(u.productivity) for u in units]) == declared, *[T(u.productivity) >= 0 for u in units]),
                 props=("C02",),
                 kind="state",
             )
